@@ -221,6 +221,7 @@ type E1Mode struct {
 	Catalog     bool
 	CloserP     float64 // probability that a duplex rpc gets a concurrent closer task
 	StormP      float64 // probability of the "unary storm" program family
+	PooledP     float64 // probability of the pooled family (client calls go through drpcpool)
 }
 
 func e1ModeFor(prop string) E1Mode {
@@ -243,7 +244,9 @@ func e1ModeFor(prop string) E1Mode {
 	case "C11":
 		m.MaxRPCs, m.MetaP, m.CancelP, m.Misbehave, m.ForceSoftC = 6, 0.7, 0.35, 0.3, -1
 	case "C12":
-		m.MaxRPCs, m.CloseFaults, m.Duplex, m.StallP, m.ServeP, m.NoInact, m.CloserP, m.SmallNet, m.Misbehave = 3, 0, 0.3, 0.3, 0.5, true, 0.2, 0.3, 0.3
+		m.MaxRPCs, m.CloseFaults, m.Duplex, m.StallP, m.ServeP, m.NoInact, m.CloserP, m.SmallNet, m.Misbehave, m.PooledP = 3, 0, 0.3, 0.3, 0.5, true, 0.2, 0.3, 0.3, 0.2
+	case "C15":
+		m.MaxRPCs, m.MaxTasks, m.CancelP, m.Misbehave, m.ErrP, m.PooledP, m.OnlyUnaryP, m.Duplex = 5, 3, 0.4, 0.3, 0.2, 1.0, 0.3, 0.2
 	case "C13":
 		m.MaxRPCs, m.Byz, m.MetaP, m.ErrP = 4, 1.0, 0.4, 0.3
 	case "C18":
